@@ -93,8 +93,8 @@ CLAIMED = {
             BASE_NOTE + " G1-G4, G6 assumed where named.", "DESIGN §6-C17, §11"),
     "C18": ("Decides the contract-expressible part: the REAL registered flatten/unflatten lambdas (captured by substituting "
             "jax.tree_util.register_pytree_node) round-trip every factor / measure / density / conditional class in every cache state with "
-            "all attributes proved equal; every pytree child is an array or None (the structural precondition of jit/vmap/scan; open known "
-            "finding for ConstantFactor and the NN-controlled conditional); the same round trip for a density after an in-place update(); "
+            "all attributes proved equal; every pytree child is an array or None (the structural precondition of jit/vmap/scan; the defect "
+            "found here for ConstantFactor and the NN-controlled conditional is repaired in fix commit 2e37312); the same round trip for a density after an in-place update(); "
             "__getstate__/__setstate__ (copy / pickle) round trips; the dict-like constructor guards; to_dict/from_dict round trips; the numeric replay runs the real "
             "jax.jit on each class. Numerical agreement of jit/vmap/grad with eager execution / finite differences is JAX semantics and is "
             "NOT claimed.", BASE_NOTE + " jax.tree_util calls the registered functions as registered (assumed).", "DESIGN §6-C18, §11"),
